@@ -105,18 +105,37 @@ func buildModel(in Input) []core_domain.CodeDataStruct {
 	return clzs
 }
 
+// the analysers of a history: every other case (by the hash of its name) keeps ONE call-graph analyser and ONE
+// reverse-call analyser for all its requests, the way a long-lived program does; the others make new ones per request
+var sharedCall call.CallGraph
+var sharedRCall rcall.RCallGraph
+var haveShared bool
+var shareAnalysers bool
+
+func analysers() (call.CallGraph, rcall.RCallGraph) {
+	if !shareAnalysers {
+		return call.NewCallGraph(), rcall.NewRCallGraph()
+	}
+	if !haveShared {
+		sharedCall, sharedRCall, haveShared = call.NewCallGraph(), rcall.NewRCallGraph(), true
+	}
+	return sharedCall, sharedRCall
+}
+
 func runOp(in Input, op Op) Obs {
 	o := emptyObs()
 	clzs := buildModel(in)
 	p, msg := lib.Guard(func() {
 		switch op.Kind {
 		case "call":
-			dot := call.NewCallGraph().Analysis(op.Root, clzs, op.Lookup)
+			cg, _ := analysers()
+			dot := cg.Analysis(op.Root, clzs, op.Lookup)
 			g := lib.ParseSimpleDot(dot)
 			o.Wellformed = g.Wellformed
 			o.Edges = g.Edges
 		case "rcall":
-			dot := rcall.NewRCallGraph().Analysis(op.Root, clzs, func(m map[string][]string) {
+			_, rg := analysers()
+			dot := rg.Analysis(op.Root, clzs, func(m map[string][]string) {
 				for k, v := range m {
 					o.Rmap[k] = append([]string{}, v...)
 				}
@@ -129,7 +148,8 @@ func runOp(in Input, op Op) Obs {
 			for _, a := range op.Apis {
 				apis = append(apis, api_domain.RestAPI{Uri: a.Uri, HttpMethod: a.Verb, MethodName: a.Name, PackageName: a.Pkg, ClassName: a.Node})
 			}
-			dot, counts := call.NewCallGraph().AnalysisByFiles(apis, clzs, in.DI)
+			cg, _ := analysers()
+			dot, counts := cg.AnalysisByFiles(apis, clzs, in.DI)
 			g := lib.ParseSimpleDot(dot)
 			o.Wellformed = g.Wellformed
 			o.Edges = g.Edges
@@ -225,6 +245,11 @@ func one(raw json.RawMessage) interface{} {
 			rec.Input.Methods[i].Calls = []Callee{}
 		}
 	}
+	h := 0
+	for _, ch := range c.Case {
+		h = h*31 + int(ch)
+	}
+	shareAnalysers = h%2 == 0
 	for _, op := range rec.Ops {
 		rec.Observed = append(rec.Observed, runOp(rec.Input, op))
 	}
